@@ -68,6 +68,8 @@ pub fn generate(check: &str, tier: &str, seed: u64, run: u64) -> Case {
         "C07" if run % 24 == 7 => crate::gen::gen_yield_after_lock(&mut rng),
         "C03" if run % 12 == 5 => crate::gen::gen_many_stores_mp(&mut rng, false),
         "C04" if run % 12 == 5 => crate::gen::gen_many_stores_mp(&mut rng, true),
+        "C04" if run % 12 == 8 => crate::gen::gen_trylock_no_handover(&mut rng),
+        "C07" if run % 24 == 8 => crate::gen::gen_trylock_no_handover(&mut rng),
         "C02" | "C03" => gen_litmus_any(&mut rng, thorough),
         "C01" => {
             if rng.chance(1, 4) {
@@ -405,6 +407,8 @@ fn judge_inner(check: &str, tier: &str, case: &Case, seed: u64, run: u64) -> Cas
     if (has_yield(&case.program) || has_try_acquire(&case.program) || has_unpark_order_sensitivity(&case.program) || (check != "C02" && has_sc_fence_order_sensitivity(&case.program)))
         && !is_witness
     {
+        // (what loom did explore is still judged iteration by iteration)
+        opts.race_iter = opts.o3_must_classes.iter().any(|c| *c == FailClass::Race);
         opts.o1 = None;
         opts.o3_must_classes.clear();
     }
